@@ -136,6 +136,9 @@ SIMPLE = [
     S("late-read", "{n1} = LATER + E({e1}, {p})", cur="n1", special=True),
     # "odd" menu (program set `odd` of the E1 properties): rarely used forms and positions
     S("none-global-read", "{n1} = E({e1}, GNONE)", cur="n1", special=True),
+    # a string literal whose continuation line is indented at least as much as the (indented) def statement
+    S("multiline-str", ['{n1} = E({e1}, """first', '            second""")'], cur=None, flags=["closure"], special=True),
+    S("mangled-read", "{n1} = E({e1}, K.__hid + {p})", cur="n1", flags=["inclass"], special=True),
     S("weird-eq", "{n1} = NOEQ(E({e1}, {p}))", special=True),
     S("return-yield", "return (yield E({e1}, {p}))", gen=True, special=True),
     S("arg-yield", "E({e1}, (yield E({e2}, {p})))", gen=True, special=True),
@@ -186,7 +189,7 @@ CORE3 = frozenset({"assign", "chain", "aug", "unpack-tuple", "unpack-star", "att
                    "yield-recv", "if", "if-else", "for", "for-else", "while", "try-except", "try-finally", "with",
                    "break", "continue", "del"})
 # the `odd` program set: every program contains at least one of ODD, the rest comes from ODD_BASE
-ODD = frozenset({"none-global-read", "weird-eq", "return-yield", "arg-yield", "assert-yield", "sub-index-yield",
+ODD = frozenset({"none-global-read", "weird-eq", "multiline-str", "mangled-read", "return-yield", "arg-yield", "assert-yield", "sub-index-yield",
                  "default-yield", "ann-yield", "attr-yield", "for-list-target", "with-list-target", "for-yield-iter",
                  "while-yield-test", "if-yield-test", "with-yield-item"})
 ODD_BASE = ODD | frozenset({"assign", "aug", "for", "if", "try-finally", "try-except", "yield-recv", "return", "raise", "break"})
@@ -278,10 +281,17 @@ def render(lines, flags, tail=True, sig=None):
         if doc:
             body = ['    """A docstring, which ptera keeps outside the instrumented block."""'] + body
     fn = [f"def f({plist}):"] + body
+    # the closure variable c is shared with two sibling closures: POKE rebinds it after f was defined
+    # (and instrumented), PEEK shows what f's own `nonlocal` writes did to the shared variable
+    share = ("    def peek():\n        return c\n    def poke(v):\n        nonlocal c\n        c = v\n"
+             "    f.PEEK, f.POKE = peek, poke\n")
     if sig == "closure-default":
-        return "def make(c):\n    kk = 3\n" + "\n".join("    " + ln for ln in fn) + "\n    return f\nf = make(10)\n"
+        return "def make(c):\n    kk = 3\n" + "\n".join("    " + ln for ln in fn) + "\n" + share + "    return f\nf = make(10)\n"
+    if "inclass" in flags:
+        # f is defined in a class body: identifiers of the form __name inside it are mangled by the compiler
+        return "class K:\n    __hid = 40\n" + "\n".join("    " + ln for ln in fn) + "\nf = K.f\n"
     if "closure" in flags:
-        src = "def make(c):\n" + "\n".join("    " + ln for ln in fn) + "\n    return f\nf = make(10)\n"
+        src = "def make(c):\n" + "\n".join("    " + ln for ln in fn) + "\n" + share + "    return f\nf = make(10)\n"
     else:
         src = "\n".join(fn) + "\n"
     return src
@@ -316,6 +326,8 @@ def programs(size, tier, only=None, maxdepth=2, must=None, tails=(True,), sigs=(
                 if sig and (ctx.flags & {"o", "d"}):
                     continue
                 if sig == "closure-default" and "closure" in ctx.flags:
+                    continue
+                if "inclass" in ctx.flags and (sig or "closure" in ctx.flags):
                     continue
                 fl = ctx.flags | ({"sig:" + sig} if sig else set()) | ({"closure"} if sig == "closure-default" else set())
                 fm = forms + (() if tail else ("fall-off-end",)) + (("sig-" + sig,) if sig else ())
